@@ -60,7 +60,7 @@ def obligations_c02(tier):
     T = float(os.environ.get('VERIF_XH_TIMEOUT') or (300 if quick else 1800))
     _, nmig = _nmenu()
     obs = []
-    nrec = 4 if quick else 5      # 7 recipes do not fit the tier (each pair costs ~8 x 200 cpu-seconds)
+    nrec = 4      # more recipes do not fit the thorough tier (each pair costs ~8 x 200 cpu-seconds); thorough = all 16 pairs, both sides
     for ra in range(nrec):
         for rb in range(nrec):
             if quick:
